@@ -267,7 +267,13 @@ mod resp {
         let binary = rng.below(2) == 0;
         let list: Vec<ContentRange> = (0..nparts).map(|_| part(&mut rng, binary)).collect();
         let nh = rng.below(4) as usize;
-        let headers: Vec<Header> = (0..nh).map(|i| Header { name: format!("X-H{}", i), value: format!("v{}", rng.below(100)) }).collect();
+        let mut headers: Vec<Header> = (0..nh).map(|i| Header { name: format!("X-H{}", i), value: format!("v{}", rng.below(100)) }).collect();
+        // values that quote other header lines (a serialiser that searches its own output for "Name: " must not be fooled)
+        match rng.below(6) {
+            0 => { headers.insert(0, Header { name: "X-Echo".into(), value: "https://a.example X-H0: spoof Content-Type: x Content-Length: 1".into() }); }
+            1 => { headers.push(Header { name: "X-H0".into(), value: "same name twice".into() }); }
+            _ => {}
+        }
         let codes = [(200i16, "OK"), (206, "Partial Content"), (404, "Not Found"), (416, "Range Not Satisfiable"), (204, "No Content")];
         let (c, p) = codes[rng.below(5) as usize];
         let methods = ["GET", "HEAD", "OPTIONS", "POST", "get"];
@@ -484,6 +490,10 @@ mod e2e {
                     "GET / HTTP/1.1\r\nContent-Length: abc\r\n\r\n", "GET / HTTP/1.1\r\nNoColonHere\r\n\r\n", "POST /form-url-encoded-enctype-post-method HTTP/1.1\r\nContent-Length: 3\r\n\r\na=b",
                     "GET / HTTP/1.1\r\nOrigin: https://a.example\rSet-Cookie:x=1\r\n\r\n", "GET / HTTP/1.1\r\nRange: bytes=0-1\r\nX: \u{7f}\r\n\r\n"] {
             add(&format!("raw {:?}", raw), raw.to_string());
+        }
+        for v in ["https://a.example X-Frame-Options: ALLOWALL", "https://a.example Cache-Control: public", "x X-Content-Type-Options: none Vary: * Accept-Ranges: none", "Content-Length: 0"] {
+            add(&format!("origin quoting a header: {}", v), format!("GET /a.txt HTTP/1.1\r\nHost: localhost\r\nOrigin: {}\r\nAccess-Control-Request-Method: X-Frame-Options: x\r\n\r\n", v));
+            add(&format!("options origin quoting a header: {}", v), format!("OPTIONS /a.txt HTTP/1.1\r\nHost: localhost\r\nOrigin: {}\r\nAccess-Control-Request-Method: Cache-Control: x\r\nAccess-Control-Request-Headers: Date-Unix-Epoch-Nanos: 1\r\n\r\n", v));
         }
         // request targets that are not origin-form: authority / absolute form, odd ports, userinfo, empty components
         for t in [":x/", "http://example.com/", "http://example.com:80/a.txt", "http://example.com:/a.txt", "http://example.com:x/", "//example.com/a.txt", "//:x/a", "http://user:pw@host/a.txt",
@@ -1280,6 +1290,19 @@ mod mpform {
         for (ct, want) in [("multipart/form-data; boundary=----WebKitFormBoundary7MA4YWxkTrZu0gW", "----WebKitFormBoundary7MA4YWxkTrZu0gW"), ("multipart/form-data; boundary=AbC-dEf", "AbC-dEf"), ("multipart/form-data;boundary=x", "x")] {
             let r = panic::catch_unwind(move || FormMultipartData::extract_boundary(ct));
             match r { Ok(Ok(b)) if b == want => {}, other => h.hit("mpform", "c16_extract_boundary", "FormMultipartData::extract_boundary", ct, &format!("{:?}, expected {:?}", other.ok(), want)) }
+        }
+        // the framing browsers send for `boundary=B`: lines "--B" between parts and "--B--" at the end (RFC 7578 / 2046)
+        for b in ["xyz", "----WebKitFormBoundary7MA4YWxkTrZu0gW", "a-b"] {
+            for (name, tail) in [("closing --B--CRLF", "--\r\n"), ("closing --B-- at end of input", "--"), ("closing --B (no final dashes)", "\r\n")] {
+                let body = format!("--{b}\r\nContent-Disposition: form-data; name=\"a\"\r\n\r\nv1\r\n--{b}\r\nContent-Disposition: form-data; name=\"f\"; filename=\"x.bin\"\r\nContent-Type: application/octet-stream\r\n\r\n\u{1}\u{2}\r\n--{b}{tail}", b = b, tail = tail).into_bytes();
+                let bb = b.to_string();
+                let r = panic::catch_unwind(move || FormMultipartData::parse(&body, bb));
+                match r {
+                    Err(_) => h.hit("mpform", "c16_panic", "FormMultipartData::parse", name, "panic"),
+                    Ok(Err(e)) => h.hit("mpform", "c16_browser_framing", "FormMultipartData::parse", &format!("{} / {}", b, name), &format!("rejected: {}", e)),
+                    Ok(Ok(ps)) => if ps.len() != 2 || ps[0].body != b"v1" || ps[1].body != [1u8, 2u8] { h.hit("mpform", "c16_browser_framing", "FormMultipartData::parse", &format!("{} / {}", b, name), &format!("{} part(s), bodies {:?}", ps.len(), ps.iter().map(|p| p.body.clone()).collect::<Vec<_>>())); }
+                }
+            }
         }
         let g2 = good.clone();
         if let Ok(Ok(ps)) = panic::catch_unwind(move || FormMultipartData::parse(&g2, "xyz".to_string())) { if ps.len() != 1 || ps[0].body != b"v" { h.hit("mpform", "c16_roundtrip", "FormMultipartData::parse", "control", "control body misread"); } }
